@@ -105,6 +105,11 @@ def shards(tier):
             sh['seq'] = seq
             sh['kind'] = 'dev'
             out.append(sh)
+    # a 12-residue base (two-digit positions; every residue letter once more) at deviation <= 1 / 2
+    for sh in space.dev_shards(AXES, 2 if tier == 'thorough' else 1):
+        sh['seq'] = 'SMKPEMKACDFW'
+        sh['kind'] = 'dev'
+        out.append(sh)
     out += [{'kind': 'unimod', 'part': i} for i in range(8)]
     out += [{'kind': 'psimod', 'part': i} for i in range(8)]
     return out
